@@ -3,7 +3,7 @@ CFG = {
     "level_text": "Partial. Proved in Lean for all parameter lists and calls (names distinct): the counting logic of parse_function_call is equivalent to the language's argument-binding rule — it accepts exactly the well-formed calls (parseCall_ok_iff), gives every parameter the argument the rule prescribes (parseCall_assignment), its unreachable!() is unreachable (parseCall_never_unreachable), and passing any suffix of the arguments by name in any order binds the same values and leaves the same defaults (call_style_invariant). 'Implementation = semantics for every program' is NOT a theorem: it is the correspondence of the real evaluator (default parser and legacy parser, snippet / imported file / ext-code / TLA-body embeddings, random positional/named call styles) with a total, fuel-indexed definitional interpreter of the core language written in Lean from the language definition and fed the real parser's AST.",
     "level_note": "Trusted: Lean kernel; the Lean interpreter Model/Eval.lean as the formalisation of the Jsonnet semantics (covers locals, closures, functions with positional/named/default parameters, conditionals, arithmetic/comparison/logic, strings, arrays, comprehensions, indexing, slicing, objects with inheritance/visibility/self/super/$/locals/asserts/methods/computed names, error, assert, a dozen std functions; bitwise operators are C09's; string formatting C12's; imports C07's); harness AST serialiser; hand model of parse_function_call (validated exhaustively on all calls with <=3 parameters and <=3 named arguments). Programs outside the modelled fragment are reported as 'model undecided' and not compared.",
     "technique": "Lean 4 proof (argument-binding refinement) + Lean definitional interpreter as executable spec + differential correspondence on the real parser's AST",
-    "engines": ["c01", "c01p", "c01b"],
+    "engines": ["c01", "c01p", "c01b", "c01t"],
     "engine_env": {"c01p": {"JRSONNET_LEGACY_PARSER": "1"}},
     "assumptions": [
         "parameter names of one function are distinct (both parsers build ExprParams from the source list; duplicates are rejected at bind time)",
